@@ -41,6 +41,22 @@ NTimesT ==
                         /\ MaxOf(leafEnds) = MaxOf(allEnds) /\ MinOf(starts) = 0
         IN simple => DurOf(heap', env', c) = n * TT
   ]_vars
+\* C05 (design theorem): a nested / explicit copy is isomorphic to its source and therefore has the same schedule relative to
+\* its own start
+CopyFaithful ==
+  [][LET st == hist'[Len(hist')] IN
+     (Len(hist') = Len(hist) + 1 /\ st.a \in {"AddSub", "CopyCirc"}) =>
+        LET s == st.s  n == st.id
+            f == [i \in Subtree(heap, s) |-> st.fm[CHOOSE j \in 1..Len(st.fm) : st.fm[j][1] = i][2]]
+            Ls == LeavesOf(heap, s)  Ln == LeavesOf(heap', n) IN
+        /\ IsoUnder(heap, heap', s, f)
+        /\ Len(Ls) = Len(Ln)
+        /\ \A j \in 1..Len(Ls) : /\ Ln[j] = f[Ls[j]]
+                                  /\ OffsetIn(heap', env', n, Ln[j]) = OffsetIn(heap, env, s, Ls[j])
+                                  /\ DurOf(heap', env', Ln[j]) = DurOf(heap, env, Ls[j])
+        /\ DurOf(heap', env', n) = DurOf(heap, env, s)
+        /\ Subtree(heap', n) \cap DOMAIN heap = {}                                   \* disjoint from everything that existed
+  ]_vars
 \* C05/C03: observations of one circuit do not depend on actions applied to another one
 Independence ==
   [][\A c \in tops : (heap'[c] = heap[c] /\ Subtree(heap', c) = Subtree(heap, c) /\ env' = env
